@@ -309,7 +309,14 @@ def identical(ex, st, a, b):
             return z3.BoolVal(True)
         if isinstance(o, VOpt):
             return o.isnone
+        if isinstance(o, VOpaque):
+            from .values import opaque_is_none
+            return opaque_is_none(o.t)       # an opaque value may be None: unknown, but functional
         return z3.BoolVal(False)
+    if isinstance(a, VOpaque) and isinstance(b, VBool) or isinstance(b, VOpaque) and isinstance(a, VBool):
+        from .values import opaque_is_true
+        o, x = (a, b) if isinstance(a, VOpaque) else (b, a)
+        return z3.If(x.t, opaque_is_true(o.t), z3.And(z3.Not(opaque_is_true(o.t)), z3.Bool(uid('is_false'))))
     if isinstance(a, VBool) and isinstance(b, VBool):
         return a.t == b.t
     if isinstance(a, VObj) and isinstance(b, VObj):
@@ -529,12 +536,26 @@ def setitem(ex, st, base, idx, v):
         if h is None:
             raise Unsupported('item assignment on %s' % base.cls)
         return h(ex, st, base, idx, v)
+    if isinstance(base, VOpaque):
+        from .engine import Event
+        ev_ = Event('setitem', [base, idx, v], {}, None, dict(st.ghost), 0, recv=base)
+        ev_.pre_ofields, ev_.pre_epoch = dict(st.ofields), st.epoch
+        st.trace.append(ev_)
+        ex.havoc_opaque_fields(st)
+        return [(st, None)]
     raise Unsupported('item assignment on %r' % (base,))
 
 
 def delitem(ex, st, base, idx):
     if isinstance(base, VDict):
         return dict_del(ex, st, base, idx)
+    if isinstance(base, VOpaque):
+        from .engine import Event
+        ev_ = Event('delitem', [base, idx], {}, None, dict(st.ghost), 0, recv=base)
+        ev_.pre_ofields, ev_.pre_epoch = dict(st.ofields), st.epoch
+        st.trace.append(ev_)
+        ex.havoc_opaque_fields(st)
+        return [(st, None)]
     raise Unsupported('del item on %r' % (base,))
 
 
@@ -602,7 +623,20 @@ def contains(ex, st, container, item):
     if isinstance(container, VNone):
         return [(st, Raised('TypeError', note='argument of type NoneType is not iterable'))]
     if isinstance(container, VOpaque):
-        # membership in an unknown container: an unknown truth value (a function of container, item and epoch)
+        # membership in an unknown container: an unknown truth value (a function of container, item and epoch);
+        # recorded as a (pure) event so that trace conditions can refer to the answer
+        from .engine import Event
+        ck = concrete_key(item)
+        if ck is not None:
+            f = z3.Function('opaque_contains_%s_%d' % (abs(hash(ck)), st.epoch), ObjSort, z3.BoolSort())
+            r_ = f(container.t)
+        else:
+            r_ = z3.Bool(uid('in'))
+        ev_ = Event('contains', [container, item], {}, VBool(r_), dict(st.ghost), 0, recv=container)
+        ev_.full = 'in'
+        ev_.pre_ofields, ev_.pre_epoch = dict(st.ofields), st.epoch
+        st.trace.append(ev_)
+        return [(st, r_)]
         ck = concrete_key(item)
         f = z3.Function('opaque_contains_%s_%d' % (abs(hash(ck)) if ck is not None else 'sym', st.epoch), ObjSort, z3.BoolSort())
         if ck is not None:
